@@ -82,6 +82,7 @@ def job(j):
             if e[1] is None or len(json.dumps(cand)) < len(json.dumps(e[1])):
                 e[1] = cand
 
+        part = j.get("part", "all")
         # (1) enumeration histories
         hist = [["solve"]] + [["another"]] * (n + 2)
         bound = None if n <= 4 else (1 if tier == "quick" else 2)
@@ -91,6 +92,9 @@ def job(j):
             env.obs = obs
             return env
 
+        roots = [None]
+        if part != "all":
+            roots = [[part]] if isinstance(part, int) else []
         # the unsteered run (whatever z3 returns)
         obs, env, _s, _b = hs.run_history(program, hist)
         res["runs"] += 1
@@ -103,7 +107,7 @@ def job(j):
             got = [o["timing"] for o in obs if o["kind"] == "solution"]
             if len(set(got)) != n:
                 record(hist, None, obs, (len(obs) - 1, f"visited {len(set(got))} of {n} timings"), "enumerate")
-        for choices, env in ctl.explore_choices(runner, bound=bound, max_runs=3000):
+        for choices, env in (x for root in roots for x in ctl.explore_choices(runner, bound=bound, max_runs=j.get("max_runs", 3000), root=root)):
             obs = env.obs
             res["runs"] += 1
             res["calls"] += len(hist)
@@ -120,6 +124,8 @@ def job(j):
         # (2) all short sequences over {another, another_for(v)} after solve (and before: the documented error)
         alphabet = [["another"]] + [["another_for", v] for v in menu]
         depth = 3 if tier == "quick" else 4
+        if part not in ("all", "seq"):
+            depth = -1
         for L in range(0, depth + 1):
             for seq in itertools.product(alphabet, repeat=L):
                 for pre in ([["solve"]], []) if L <= 2 else ([["solve"]],):
@@ -232,7 +238,13 @@ def main(tier):
     chk.assumptions = ASSUME
     js = []
     for i, (lab, program, menu) in enumerate(programs(tier)):
-        js.append({"program": program, "menu": menu, "family": lab, "tier": tier, "want_sample": i % 3 == 0})
+        if tier == "quick":
+            js.append({"program": program, "menu": menu, "family": lab, "tier": tier, "want_sample": i % 3 == 0})
+        else:
+            # one job per first model choice (a root choice that does not exist is an empty job) + one for the call sequences
+            js.append({"program": program, "menu": menu, "family": lab, "tier": tier, "want_sample": i % 3 == 0, "part": "seq"})
+            for k in range(12):
+                js.append({"program": program, "menu": menu, "family": lab, "tier": tier, "part": k, "max_runs": 600})
     js = common.rotate(js)
     nontrivial = 0
     for status, r in run.pmap(job, js, chunk=1):
